@@ -38,15 +38,15 @@ ASSUMPTIONS = [
     "channels: the text has >= 2 lines and its first line is a section title (texts whose first line looks like a URL are not LAS files)",
     "the symbolic part of the text is one ~Well value (printable Latin-1 incl. non-ASCII letters, no ':')",
 ]
-WITNESS_TARGETS = ["non-ascii-header-character", "bom-detected", "explicit-encoding", "chardet-used", "adhoc-encoding-used", "mutation-then-reread"]
+WITNESS_TARGETS = ["non-ascii-header-character", "bom-detected", "explicit-encoding", "chardet-used", "adhoc-encoding-used", "mutation-then-reread", "line-break-like-character-in-header-text"]
 EXCLUSIONS = {}
 CHANNELS = ["string", "stringio", "fileobj", "path", "pathlib"]
-MUTATIONS = ["append-well-item", "assign-value", "rename-curve", "set_data-names", "delete-curve", "change-array"]
+MUTATIONS = ["append-well-item", "assign-value", "rename-curve", "set_data-names", "delete-curve", "change-array", "reads-with-other-options"]
 
 
 def tasks(tier):
     b = BOUNDS[tier]
-    out = [{"name": "channels", "params": {"part": "channels", "vcap": b["value_cap"]}, "weight": 3}]
+    out = [{"name": "channels", "params": {"part": "channels", "vcap": max(3, b["value_cap"])}, "weight": 3}]
     for enc_arg in (None, "latin-1", "utf-16"):
         for auto in (True, False, "chardet"):
             out.append({"name": "encoding/%s/%s" % (enc_arg, auto), "params": {"part": "encoding", "enc": enc_arg, "auto": auto}})
@@ -56,7 +56,7 @@ def tasks(tier):
 
 
 def text_lines(value):
-    return ["~Version", "VERS. 2.0 : v", "WRAP. NO : w", "~Well", "NULL. -9 : n", concat(["COMP. ", value, " : company"]) if isinstance(value, SymStr) else "COMP. " + value + " : company",
+    return ["~Version", "VERS. 2.0 : v", "WRAP. NO : w", "~Well", "NULL. -9 : n", "Fld. North Field : mixed-case mnemonic", concat(["COMP. ", value, " : company"]) if isinstance(value, SymStr) else "COMP. " + value + " : company",
             "~Curve", "DEPT.M : d", "GR.API : g", "~A", "1 10", "2 -9"]
 
 
@@ -99,8 +99,12 @@ class Bin(object):
 
 def make_shims(fs, chardet_answer="ascii"):
     def _stringio(x="", *a, **k):
+        from symlas.stubs import SymText
+
         if isinstance(x, MultiLine):
             return SymFile(x.lines, [x.nl] * len(x.lines))
+        if isinstance(x, SymText):  # a text re-assembled with "\n".join(...)
+            return SymFile(x.lines, ["\n"] * (len(x.lines) - 1) + [""])
         return _io.StringIO(x, *a, **k)
 
     class IoShim(object):
@@ -144,10 +148,13 @@ def h_channels(ns_unused, p):
         A = core.assume
         core.OPTS["concretize"] = True
         v = SymStr.fresh("val", p["vcap"], minlen=1)
-        A(allc(v, lambda c: z.And(printable(c), not_char(":")(c))))
+        # printable Latin-1 plus the characters str.splitlines() treats as line ends although files do not
+        # (0x85 is what byte 0x85 of a latin-1 file decodes to)
+        A(allc(v, lambda c: z.And(z.Or(printable(c), z.in_set_c(c, (0x0B, 0x0C, 0x1C, 0x1D, 0x1E, 0x85))), not_char(":")(c))))
         A(is_stripped(v))
         A(z.Or(z.in_range_c(v.chars[0], 65, 90), z.in_range_c(v.chars[0], 97, 122), z.in_range_c(v.chars[0], 0xC0, 0xFE)))  # a text value (numeric literals are C08's subject)
         crlf = fresh_bool("crlf")
+        core.witness("line-break-like-character-in-header-text", z.Or([z.And(v.inlen(i), z.in_set_c(v.chars[i], (0x0B, 0x0C, 0x1C, 0x1D, 0x1E, 0x85))) for i in range(v.cap)]))
         inputs = {"part": "channels", "value": v, "crlf": crlf}
         cx = core.ctx()
         cx.inputs = inputs
@@ -222,8 +229,20 @@ class MultiLine(object):
         self.lines = lines
         self.nl = nl
 
+    BREAKS = "\x0b\x0c\x1c\x1d\x1e\x85"
+
     def splitlines(self):
-        return list(self.lines)
+        """str.splitlines() also breaks at VT, FF, FS, GS, RS and NEL (U+0085), which a file
+        object or StringIO does not treat as line ends"""
+        from symlas import symre
+
+        out = []
+        for ln in self.lines:
+            if isinstance(ln, SymStr):
+                out += symre.split("[" + self.BREAKS + "]", ln)
+            else:
+                out += ln.splitlines() or [""]
+        return out
 
 
 # ------------------------------------------------------------------------------ (b) encoding selection
@@ -297,7 +316,7 @@ def h_purity(ns, p):
         apply_exclusions(inputs)
         lines = text_lines(v)
         las1 = ns.las.LASFile()
-        las1.read(SymFile(lines))
+        las1.read(SymFile(lines), mnemonic_case="preserve")
         s1 = snap(las1)
         # a symbolic mutation of the first result
         HeaderItem, CurveItem = ns.items.HeaderItem, ns.items.CurveItem
@@ -318,11 +337,15 @@ def h_purity(ns, p):
         elif mut == "change-array":
             list.__getitem__(las1.curves, 0).data[0] = 99.0
             las1.index_unit = "FT"
+        elif mut == "reads-with-other-options":
+            # interleaved reads of the same text under other options must not leak into later reads
+            for mc in ("lower", "preserve", "upper"):
+                ns.las.LASFile().read(SymFile(lines), mnemonic_case=mc, engine="normal", ignore_header_errors=True)
         core.witness("mutation-then-reread")
         other = ns.las.LASFile()  # an unrelated object created in between
         other.append_curve("Z", np.array([1.0]))
         las2 = ns.las.LASFile()
-        las2.read(SymFile(lines))
+        las2.read(SymFile(lines), mnemonic_case="preserve")
         s2 = snap(las2)
         fresh = ns.las.LASFile()
         obl = [("second-read-equals-first", snap_eq(s2, s1)),
@@ -428,7 +451,7 @@ def replay(i):
     else:
         v, nm, mut = i["value"], i["name"], i["mutation"]
         text = "\n".join(text_lines(v)) + "\n"
-        las1 = lasio.read(text)
+        las1 = lasio.read(text, mnemonic_case="preserve")
         s1 = snap(las1)
         if mut == "append-well-item":
             las1.well.append(lasio.HeaderItem(nm, "", "x", "y"))
@@ -447,9 +470,12 @@ def replay(i):
         elif mut == "change-array":
             las1.curves[0].data[0] = 99.0
             las1.index_unit = "FT"
+        elif mut == "reads-with-other-options":
+            for mc in ("lower", "preserve", "upper"):
+                lasio.read(text, mnemonic_case=mc, engine="normal", ignore_header_errors=True)
         other = lasio.LASFile()
         other.append_curve("Z", np.array([1.0]))
-        las2 = lasio.read(text)
+        las2 = lasio.read(text, mnemonic_case="preserve")
         s2 = snap(las2)
         if not bool(snap_eq(s2, s1)):
             problems.append("second read differs from the first: %r vs %r" % (s2, s1))
